@@ -112,7 +112,9 @@ def gen_data(cfg):
     eta = 0.8 * np.sin(3 * X[:, 0]) + 0.25 * X[:, 1] + 0.3 * (X[:, 2] == 1) - 0.2 * (X[:, 2] == 3) + 0.1 * X[:, 3] * X[:, 1]
     fam, link = LABELS[cfg['label']][2], LABELS[cfg['label']][3]
     if fam == 'normal' and link == 'identity':
-        y = eta + rs.normal(0, 0.25, n)
+        # identity link: the response may be recorded in any unit (grams instead of kilograms: values beyond +-709, the
+        # overflow threshold of exp; nanometres: 1e-6) — the bounds are lp +- z se on that scale, whatever it is
+        y = (eta + rs.normal(0, 0.25, n)) * [1.0, 3000.0, 1.0, 1e-6][cfg['idx'] % 4]
     elif fam == 'normal':            # log link: positive targets
         y = np.exp(0.5 * eta) + np.abs(rs.normal(0, 0.1, n)) + 0.2
     elif fam == 'binomial':
